@@ -204,7 +204,21 @@ fn replay(run: &Run, case: &Value) -> Vec<Violation> {
             let s = dec_shapes().into_iter().find(|s| s.name == shape).expect("unknown shape");
             let want = s.op.model(&a, &b);
             let (xa, xb) = (bd(&a), bd(&b));
-            push(viol("dec", s.name, &a, &b.show(), &want, guard(|| (s.f)(&xa, &xb)), (a.s - b.s).abs()), &mut out);
+            if let Some(h) = case.get("after") {
+                // a recorded history: an earlier operation (other operands) on this thread first
+                let (ha, hb) = (bd(&jd(&h["a"])), bd(&jd(&h["b"])));
+                let hs = dec_shapes().into_iter().find(|s| s.name == h["shape"].as_str().unwrap()).expect("unknown shape");
+                let _ = guard(|| (hs.f)(&ha, &hb));
+            }
+            push(
+                viol("dec", s.name, &a, &b.show(), &want, guard(|| (s.f)(&xa, &xb)), (a.s - b.s).abs()).map(|mut v| {
+                    if let (Some(h), Some(o)) = (case.get("after"), v.case.as_object_mut()) {
+                        o.insert("after".into(), h.clone());
+                    }
+                    v
+                }),
+                &mut out,
+            );
         }
         "bigint" => {
             let b = jd(&case["b"]);
@@ -368,6 +382,52 @@ fn main() {
         }
         run.sample(|| json!({"kind": "dec", "shape": "V-=R", "a": "1e0", "b": format!("-7e{}", -g)}));
         t
+    });
+
+    // ---- S9: histories of two operations whose scale gaps are RELATED: G1, then a gap derived from it the way
+    // exponent recursions derive theirs (halves, quarters, sixteenths, tenths, square root, neighbours).  Each
+    // operation alone is covered by S3; a helper that remembers anything about the previous power of ten is
+    // decided by the pair.  Every G1 in the range; one fresh thread per G1, so a recorded pair replays.
+    let g1max: usize = tier.pick(10_000, 40_000);
+    run.bound("S9_gap_histories", json!({"first_gap": format!("every 0..={}", g1max), "second_gap": "G/2 G/4 G/8 G/10 G/16 G/32 G/100 G/256 isqrt(G) G-1 G+1 2G 16G (<= 20000)", "judged_overloads": if tier.is_thorough() { ds.len() } else { (ds.len() + 7) / 8 }}));
+    run.par("S9 related-gap histories", g1max + 1, |g1| {
+        let stride = if tier.is_thorough() { 1 } else { 8 };
+        std::thread::scope(|sc| {
+            sc.spawn(|| {
+                let mut t = Tally::default();
+                let g1 = g1 as i128;
+                let mut g2s: Vec<i128> = vec![g1 / 2, g1 / 4, g1 / 8, g1 / 10, g1 / 16, g1 / 32, g1 / 100, g1 / 256, (g1 as f64).sqrt() as i128, g1 - 1, g1 + 1, 2 * g1, 16 * g1];
+                g2s.retain(|&g| g >= 0 && g <= 20_000);
+                g2s.sort();
+                g2s.dedup();
+                let arm = if g1 % 2 == 0 { "R+R" } else { "V-V" };
+                let hs = ds.iter().find(|s| s.name == arm).expect("arming shape");
+                let (ha, hb) = (Dec { n: BigInt::from(7), s: -(g1 / 2) }, Dec { n: BigInt::from(3), s: g1 - g1 / 2 });
+                let (xha, xhb) = (bd(&ha), bd(&hb));
+                for g2 in g2s {
+                    t.states += 1;
+                    for (sa, sb) in [(0i128, g2), (g2, 0)] {
+                        let (a, b) = (Dec { n: BigInt::from(-7), s: sa }, Dec { n: BigInt::from(3), s: sb });
+                        let (xa, xb) = (bd(&a), bd(&b));
+                        for s in ds.iter().step_by(stride) {
+                            let _ = guard(|| (hs.f)(&xha, &xhb));
+                            t.transitions += 2;
+                            t.nontrivial += 1;
+                            let w = s.op.model(&a, &b);
+                            if let Some(mut v) = viol("dec", s.name, &a, &b.show(), &w, guard(|| (s.f)(&xa, &xb)), g2) {
+                                if let Some(o) = v.case.as_object_mut() {
+                                    o.insert("after".into(), json!({"shape": arm, "a": ha.show(), "b": hb.show()}));
+                                }
+                                run.report(v.attr("history", true));
+                            }
+                        }
+                    }
+                }
+                t
+            })
+            .join()
+            .expect("S9 history thread")
+        })
     });
 
     // ---- S6: structured operands (word limits, products with a power of ten crossing a word limit, digit
